@@ -294,6 +294,9 @@ def finish(pid, tier, seed, level, result, rule, wall_s, assumptions, extra_cove
     return code
 
 
+SHARD_TIMEZONES = ["UTC", "Asia/Kolkata", "America/St_Johns", "Pacific/Chatham", "Europe/Berlin", "America/Los_Angeles", "Australia/Lord_Howe", "Asia/Kathmandu"]
+
+
 def run_shards(pid, tier, seed, nshards, timeout_s, extra_args=()):
     """Run `run_check.py PID --shard i/n` children in parallel; merge their Results.
     A dead or timed-out child makes the run inconclusive (never a violation)."""
@@ -305,6 +308,11 @@ def run_shards(pid, tier, seed, nshards, timeout_s, extra_args=()):
         cmd = [sys.executable, "-B", script, pid, "--tier", tier, "--shard", f"{i}/{nshards}",
                "--shard-out", out, *extra_args]
         env = dict(os.environ, VERIF_SEED=str(seed), PYTHONDONTWRITEBYTECODE="1")
+        # process-level configuration no property may depend on, varied over the shards and fixed by (seed, shard) so that a replay
+        # sees the same: the local time zone (whole-, half- and quarter-hour offsets, both hemispheres' DST rules) and the hash seed
+        # (iteration order of sets / dicts keyed by str or bytes)
+        env["TZ"] = SHARD_TIMEZONES[(seed + i) % len(SHARD_TIMEZONES)]
+        env["PYTHONHASHSEED"] = str((seed * 131 + i * 7 + 1) % 4294967295)
         p = subprocess.Popen(cmd, env=env, stdout=subprocess.PIPE, stderr=subprocess.STDOUT)
         procs.append((i, p, out))
     merged = Result(pid)
